@@ -37,7 +37,7 @@ func runConnReplay(c *simkit.Choice, r *simkit.Rec) {
 		suite = []uint16{0x002f, 0x009c, 0xc02f, 0x003c}[c.Choose(4, simkit.LScen)]
 	}
 	tickets := c.Bool(3, 4, simkit.LScen)
-	which := c.Choose(2, simkit.LFault)  // stream of the first or of the second connection
+	which := c.Choose(2, simkit.LFault)     // stream of the first or of the second connection
 	toServer := c.Bool(2, 3, simkit.LFault) // play the client's stream to the server, or the server's stream to the client
 	chunk := []int{1 << 20, 1, 7, 100, 1500}[c.Choose(5, simkit.LFault)]
 	entC := simkit.NewStream(uint64(c.Choose(1<<31, simkit.LEntropy)) + 61)
